@@ -15,32 +15,58 @@ fmt keys (all optional; absent = canonical):
   lead: list[str]       raw lines before everything (only sensible when there is no header comment)
   marker: str           the service response marker (default "---")
   blank: str            content of the "empty" lines emitted for blanks / orphan fences (default "": truly empty)
+  tight_hash: bool      comments written "#text" instead of "# text"
+  sat_x: bool           the default cast mode spelled out ("saturated uint8")
+  numx: int             array capacities and extents spelled as equivalent literals / constant expressions (0x.., n-1 + 1, 2 ** k, 8 * m)
 """
 from __future__ import annotations
 
 
-def type_text(t: list, d: dict, gap: str = "") -> str:
+def spell_number(n: int, numx: int | None) -> str:
+    """An integer as the decimal literal (numx None) or as one of several equivalent constant expressions / literal forms."""
+    if numx is None or not isinstance(n, int) or n < 0:
+        return "%d" % n
+    sel = (numx + n) % 7
+    if sel == 0:
+        return hex(n)
+    if sel == 1 and n >= 1:
+        return "%d + 1" % (n - 1)
+    if sel == 2 and n > 0 and n & (n - 1) == 0 and n > 1:
+        return "2 ** %d" % (n.bit_length() - 1)
+    if sel == 3:
+        return "(%d)" % n
+    if sel == 4 and n >= 1000:
+        s0 = "%d" % n
+        return s0[:-3] + "_" + s0[-3:]
+    if sel == 5:
+        return "%d * 1" % n
+    if sel == 6 and n % 8 == 0 and n > 0:
+        return "8 * %d" % (n // 8)
+    return "%d" % n
+
+
+def type_text(t: list, d: dict, gap: str = "", sat: bool = False, numx: int | None = None) -> str:
     k = t[0]
     if k == "bool":
         return "bool"
     if k == "u":
-        return ("truncated uint%d" if t[2] == "t" else ("saturated uint%d" if len(t) > 3 and t[3] == "x" else "uint%d")) % t[1]
+        return ("truncated uint%d" if t[2] == "t" else ("saturated uint%d" if (sat or (len(t) > 3 and t[3] == "x")) else "uint%d")) % t[1]
     if k == "i":
         if len(t) > 2 and t[2] == "t":
             return "truncated int%d" % t[1]
-        return ("saturated int%d" if len(t) > 2 and t[2] == "x" else "int%d") % t[1]
+        return ("saturated int%d" if (sat or (len(t) > 2 and t[2] == "x")) else "int%d") % t[1]
     if k == "f":
-        return ("truncated float%d" if t[2] == "t" else ("saturated float%d" if len(t) > 3 and t[3] == "x" else "float%d")) % t[1]
+        return ("truncated float%d" if t[2] == "t" else ("saturated float%d" if (sat or (len(t) > 3 and t[3] == "x")) else "float%d")) % t[1]
     if k in ("byte", "utf8"):
         return k
     if k == "void":
         return "void%d" % t[1]
     if k == "arr":
-        return "%s%s[%s%d%s]" % (type_text(t[1], d), gap, gap, t[2], gap)
+        return "%s%s[%s%s%s]" % (type_text(t[1], d, "", sat, numx), gap, gap, spell_number(t[2], numx), gap)
     if k == "var":
         if len(t) > 3 and t[3] == "lt":
-            return "%s%s[%s<%s%d%s]" % (type_text(t[1], d), gap, gap, gap, t[2] + 1, gap)
-        return "%s%s[%s<=%s%d%s]" % (type_text(t[1], d), gap, gap, gap, t[2], gap)
+            return "%s%s[%s<%s%s%s]" % (type_text(t[1], d, "", sat, numx), gap, gap, gap, spell_number(t[2] + 1, numx), gap)
+        return "%s%s[%s<=%s%s%s]" % (type_text(t[1], d, "", sat, numx), gap, gap, gap, spell_number(t[2], numx), gap)
     if k == "ref":
         ns = d["name"].rsplit(".", 1)[0]
         tns, short = t[1].rsplit(".", 1)
@@ -49,8 +75,9 @@ def type_text(t: list, d: dict, gap: str = "") -> str:
     raise ValueError(t)
 
 
-def _doc_lines(doc: str) -> list[str]:
-    return ["# " + ln for ln in doc.split("\n")]
+def _doc_lines(doc: str, tight: bool = False) -> list[str]:
+    # "#text" and "# text" are the same comment (one blank after the hash is not part of the text)
+    return [("#" if tight and ln and not ln.startswith(" ") else "# ") + ln for ln in doc.split("\n")]
 
 
 def render(d: dict, fmt: dict | None = None) -> tuple[str, dict[str, int]]:
@@ -72,12 +99,15 @@ def render(d: dict, fmt: dict | None = None) -> tuple[str, dict[str, int]]:
             lmap[tag] = len(lines)
 
     blank = fmt.get("blank", "")  # what an "empty" line consists of ("" or blanks only)
+    tight = bool(fmt.get("tight_hash"))
+    sat = bool(fmt.get("sat_x"))
+    numx = fmt.get("numx")
 
     def after(si: int, idx: int) -> None:
         k = "%d:%d" % (si, idx)
         if k in orphans:
             lines.append(blank)
-            for ln in _doc_lines(orphans[k]):
+            for ln in _doc_lines(orphans[k], tight):
                 emit(ln, comment=True)
             lines.append(blank)
         for _ in range(int(blanks.get(k, 0))):
@@ -87,7 +117,7 @@ def render(d: dict, fmt: dict | None = None) -> tuple[str, dict[str, int]]:
         if si == 1:
             emit(fmt.get("marker", "---"), "marker")
         if s.get("hdr") is not None:
-            for ln in _doc_lines(s["hdr"]):
+            for ln in _doc_lines(s["hdr"], tight):
                 emit(ln, comment=True)
         dirs = []
         if si == 0 and d.get("dep"):
@@ -106,13 +136,13 @@ def render(d: dict, fmt: dict | None = None) -> tuple[str, dict[str, int]]:
             k = it[0]
             doc = None
             if k == "f":
-                text = "%s%s%s" % (type_text(it[1], d, fmt.get("agap", "")), gap, it[2])
+                text = "%s%s%s" % (type_text(it[1], d, fmt.get("agap", ""), sat, numx), gap, it[2])
                 doc = it[3] if len(it) > 3 else None
             elif k == "p":
                 text = "void%d" % it[1]
                 doc = it[2] if len(it) > 2 else None
             elif k == "c":
-                text = "%s%s%s%s=%s%s" % (type_text(it[1], d), gap, it[2], gap, gap, it[3])
+                text = "%s%s%s%s=%s%s" % (type_text(it[1], d, "", sat, None), gap, it[2], gap, gap, it[3])
                 doc = it[5] if len(it) > 5 else None
             elif k == "raw":
                 text = it[1]
@@ -120,7 +150,7 @@ def render(d: dict, fmt: dict | None = None) -> tuple[str, dict[str, int]]:
                 raise ValueError(it)
             tag = "%d:%d" % (si, idx)
             if doc:
-                dl = _doc_lines(doc)
+                dl = _doc_lines(doc, tight)
                 if doc_same:
                     emit(text + gap + dl[0], tag, comment=True)
                     dl = dl[1:]
@@ -136,7 +166,7 @@ def render(d: dict, fmt: dict | None = None) -> tuple[str, dict[str, int]]:
         if seal == "sealed" and not fmt.get("seal_first"):
             emit("@sealed", "%d:seal" % si)
         elif isinstance(seal, int) and not isinstance(seal, bool):
-            emit("@extent%s%d" % (gap, seal), "%d:seal" % si)
+            emit("@extent%s%s" % (gap, spell_number(seal, numx)), "%d:seal" % si)
         elif isinstance(seal, str) and seal != "sealed":
             emit(seal, "%d:seal" % si)  # raw override (fault injection)
     for ln in fmt.get("tail", []):
